@@ -217,6 +217,9 @@ class Ctx:
         for s in res.get("samples", [])[:3]:
             if len(self.samples) < 12:
                 self.samples.append(s)
+        vc = (res.get("extra") or {}).get("violation_counts") or {}
+        if vc:
+            self.notes.setdefault("violation_counts", {}).update(vc)
         for v in res.get("violations", []) or []:
             self.violation(v.get("sig", "?"), v.get("detail", ""), v.get("case"))
 
